@@ -35,6 +35,8 @@ pub use state::{
     GraphMeta, OperationPreview, RelationalMeta, VectorMeta,
 };
 pub use storage::CheckpointStorage;
+#[cfg(neumann_verif)]
+pub use state::verif_clock;
 use tensor_blob::BlobStore;
 use tensor_store::TensorStore;
 use tokio::sync::Mutex;
